@@ -1,5 +1,5 @@
 (* PG layer, C14: equivariance of gen_plan (evolving schema included). *)
-From VV.M1 Require Import PrefixStrP PrefixP PrefixApplyP.
+From VV.M1 Require Import PrefixHyp PrefixStrP PrefixP PrefixApplyP.
 From VV.PG Require Export PrefixGenP.
 
 Fixpoint side_plan (p : string) (s : schema) (acts : list action) : bool :=
@@ -27,4 +27,24 @@ Proof.
   fold (step_schema (literal_schema p s) (literal_action p a)). fold (step_schema s a).
   rewrite (step_schema_literal p s a Hp Hu), (IH _ Hr).
   destruct (gen_plan (step_schema s a) r); reflexivity.
+Qed.
+
+(* ---------- MigrationPlan::with_prefix (after the D10 repair: inline foreign_key targets are prefixed too) ----------
+   the SQL generated for the prefixed plan on the literally renamed baseline is the renamed SQL of the plain plan,
+   provided every inline foreign_key reference is well formed (PrefixHyp.inline_fks_parse) *)
+Theorem with_prefix_gen_plan p pl s : p <> "" -> no_dot p ->
+  forallb inline_fks_parse (p_actions pl) = true -> side_plan p s (p_actions pl) = true ->
+  gen_plan (literal_schema p s) (p_actions (plan_with_prefix p pl))
+  = match gen_plan s (p_actions pl) with Ok qs => Ok (map (map (rename_stmt p)) qs) | Err e => Err e end.
+Proof.
+  intros Hne Hp Hfk Hs. rewrite (plan_with_prefix_is_literal p pl Hne Hfk).
+  now apply gen_plan_equivariant.
+Qed.
+
+(* one action *)
+Theorem with_prefix_gen p s a P P' : p <> "" -> no_dot p -> inline_fks_parse a = true -> side_pg s a = true ->
+  gen (literal_schema p s) P' (action_with_prefix p a)
+  = match gen s P a with Ok q => Ok (map (rename_stmt p) q) | Err e => Err e end.
+Proof.
+  intros Hne Hp Hfk Hs. rewrite (with_prefix_is_literal p a Hne Hfk). now apply gen_equivariant.
 Qed.
